@@ -1316,8 +1316,10 @@ fn main() {
         let n_r = (if a.thorough { 100 } else { 8 }) * a.scale;
         for i in 0..n_r {
             let mut fr = r.fork();
-            let o = Version { soa: 2 * (2 + fr.below(1000) as u32), keys: rand_keys(&mut fr, &uni, 10) };
-            let nw = mutate(&mut fr, &uni, &o);
+            let mut o = Version { soa: 2 * (2 + fr.below(1000) as u32), keys: rand_keys(&mut fr, &uni, 10) };
+            o.keys.insert(0);   // [SOA, SOA] under an IXFR question is an empty IXFR, not an AXFR of an empty zone
+            let mut nw = mutate(&mut fr, &uni, &o);
+            nw.keys.insert(1);
             let start = Version { soa: 2 * fr.below(500) as u32, keys: rand_keys(&mut fr, &uni, 6) };
             let pl = fr.below(4);
             sender_race_case(&mut cx, &o, &nw, if i % 2 == 0 { 0 } else { 2 }, &start, pl);
